@@ -521,8 +521,10 @@ namespace AIToolbox::POMDP {
             // This means that their value is *higher* than what we can
             // approximate using the other beliefs.
             AI_LOGGER(AI_SEVERITY_DEBUG, "UB pruning...");
+            // Note that ubV may have been emptied by a previous pruning (this
+            // happens when the initial belief is a corner of the simplex).
             size_t i = ubV.first.size();
-            do {
+            if (i > 0) do {
                 --i;
 
                 // We swap the current belief to check at the end, and we
